@@ -5,4 +5,6 @@ From Verif Require Import Lib.Bytes Lib.BitRegroup Model.ChangeBase Model.Bip39.
 Extraction Language OCaml.
 Extraction "../ocaml/c14_model.ml" bz zb lib_cb_10_2 lib_cb_256_2 lib_cb_2_2048 lib_cb_2048_256 lib_cb_2_256
   lib_to_bytes hexlike lib_to_indices_sha lib_to_entropy_sha spec_to_indices_sha spec_to_entropy_sha
-  lib_entropy_of_words_sha lib_seed_query_x.
+  lib_entropy_of_words_sha lib_seed_query_x
+  lib_to_indices_opt_sha lib_to_entropy_opt_sha lib_detect_x lib_sanitize_x lib_entropy_obj_x lib_seed_query_vx
+  answer run_session.
